@@ -230,6 +230,12 @@ type objState struct {
 	name       string
 	wSite      string
 	readsSites []string
+	// last recorded access: a repeat by the same thread with no visible
+	// operation in between (same steps count) and no stronger kind adds nothing
+	recThread int
+	recStep   int
+	recWrite  bool
+	recValid  bool
 }
 
 // EndKind says how an execution ended.
@@ -263,6 +269,8 @@ type sched struct {
 	nextObj        ObjID
 	objs           []objState
 	addrObj        map[unsafe.Pointer]ObjID
+	arrs           []arrSpan
+	lastArr        int
 	closedCh       map[unsafe.Pointer]bool
 	finished       chan struct{}
 	steps          int
@@ -321,6 +329,47 @@ func AddrObj(p unsafe.Pointer) ObjID {
 	id := NewObj("")
 	s.addrObj[p] = id
 	return id
+}
+
+// arrSpan is one byte array seen by ArrObj (kept alive by base, so that its
+// addresses are not reused within the execution).
+type arrSpan struct {
+	base unsafe.Pointer
+	lo   uintptr
+	hi   uintptr
+	id   ObjID
+}
+
+// ArrObj maps a byte slice to the object that stands for the array it points
+// into: slices of one array (sub-slices at any offset) get one object. The
+// array's extent is learnt from the slices seen (first sight usually shows
+// the whole array: pooled buffers are handed out at full capacity).
+func ArrObj(b []byte) (ObjID, bool) {
+	if cap(b) == 0 {
+		return 0, false
+	}
+	base := unsafe.Pointer(unsafe.SliceData(b))
+	lo := uintptr(base)
+	hi := lo + uintptr(cap(b))
+	if i := s.lastArr; i < len(s.arrs) && lo >= s.arrs[i].lo && hi <= s.arrs[i].hi {
+		return s.arrs[i].id, true
+	}
+	for i := range s.arrs {
+		a := &s.arrs[i]
+		if lo < a.hi && a.lo < hi { // overlap: same allocation
+			s.lastArr = i
+			if lo < a.lo {
+				a.lo, a.base = lo, base
+			}
+			if hi > a.hi {
+				a.hi = hi
+			}
+			return a.id, true
+		}
+	}
+	id := NewObj("")
+	s.arrs = append(s.arrs, arrSpan{base: base, lo: lo, hi: hi, id: id})
+	return id, true
 }
 
 // CurThread returns the running thread's id.
@@ -606,6 +655,10 @@ func RecordAccess(obj ObjID, write bool, site string) {
 	}
 	o := &s.objs[obj]
 	t := s.cur
+	if o.recValid && o.recThread == t.id && o.recStep == s.steps && (o.recWrite || !write) {
+		return
+	}
+	o.recValid, o.recThread, o.recStep, o.recWrite = true, t.id, s.steps, write
 	t.clock[t.id]++
 	st := Stamp{Thread: t.id, Tick: t.clock[t.id], Clock: t.clock}
 	report := func(other *Stamp, otherSite string, ow bool) {
